@@ -169,13 +169,18 @@ def _case(cfg):
     passes = collections.Counter()
     fails = []
     mode = cfg["mode"]
+    # key class: is everything the sample is conditioned on supplied by the caller, or (partly) drawn from the model?
+    cls = "conditioning given" if mode in ("initial", "sequences") else "conditioning drawn from the model"
+
+    def plain(v):
+        return int(v) if isinstance(v, np.integer) else v
 
     def check(cond, clause, observed=None, expected=None, key=None, extra=None):
         if cond:
             passes[clause] += 1
         else:
             passes[clause] += 0
-            fails.append(dict(clause=clause, key=key or f"{FN}:{clause}[{mode}]", expected=expected, observed=observed,
+            fails.append(dict(clause=clause, key=key or f"{FN}:{clause}[{cls}]", expected=expected, observed=observed,
                               input=dict(cfg, **(extra or {}))))
         return cond
 
@@ -191,7 +196,7 @@ def _case(cfg):
     for r_i, r in enumerate(runs):
         if r["error"] is not None:
             passes[RAISES] += 0
-            fails.append(dict(clause=RAISES, key=f"{FN}:{RAISES}[{mode}: {r['error'][0]}]", expected=None,
+            fails.append(dict(clause=RAISES, key=f"{FN}:{RAISES}[{cls}: {r['error'][0]}]", expected=None,
                               observed="%s: %s" % r["error"], input=dict(cfg, samples_before_error=len(r["samples"]))))
         else:
             passes[RAISES] += 1
@@ -200,7 +205,7 @@ def _case(cfg):
         D = cfg.get("max_hye_size") or r["N"]
         matching = r["matching"] is True
         for k, (edges, weights, weighted) in enumerate(r["samples"]):
-            ex = dict(sample_index=k, hyperedges=edges, weights=weights)
+            ex = dict(sample_index=k, hyperedges=[[plain(v) for v in e] for e in edges], weights=[plain(x) for x in weights])
             sets = [frozenset(e) for e in edges]
             if len(sets) >= 2:
                 nontrivial = True
@@ -232,8 +237,8 @@ def _case(cfg):
     a, b = runs
     if a["error"] is None or b["error"] is None:
         def canon(r):
-            return [sorted(((sorted(map(repr, e)), repr(int(x) if isinstance(x, (int, np.integer)) else x))
-                            for e, x in zip(edges, weights))) for edges, weights, _ in r["samples"]]
+            return [sorted(((sorted(repr(plain(v)) for v in e), repr(plain(x))) for e, x in zip(edges, weights)))
+                    for edges, weights, _ in r["samples"]]
         same = canon(a) == canon(b) and (a["error"] is None) == (b["error"] is None)
         check(same, "same parameters and seed give the same sequence of samples",
               observed=dict(first=canon(a)[:2], second=canon(b)[:2], errors=[a["error"], b["error"]]))
@@ -294,7 +299,7 @@ def _plan(quick, seed):
         emit(base, STEPS, 1 if quick else 2)
     # ---- degree and size sequences with equal totals
     for j in range(45 if quick else 450):
-        N = R.randint(2, 8)
+        N = R.randint(2, 8) if j >= 4 else 2
         E = R.randint(2, 8)
         dim = collections.Counter(R.randint(2, min(N, 5)) for _ in range(E))
         total = sum(d * c for d, c in dim.items())
@@ -318,11 +323,14 @@ def _plan(quick, seed):
         emit(base, STEPS, 1 if quick else 2)
     # ---- from the model alone
     for j in range(24 if quick else 120):
-        N = R.randint(2, 8)
+        N = R.randint(3, 8) if j >= 2 else 2
         base = dict(mode="model", N=N, K=R.randint(1, 3), w=R.choice(["full", "diagonal"]),
-                    scale=(0.001, 1.0, 2.5, 6.0)[j % 4], max_hye_size=(None, 2, min(3, N), N)[(j // 4) % 4],
-                    exact=bool((j // 2) % 2))
+                    scale=(0.001, 2.5, 4.0, 8.0)[j % 4], max_hye_size=(None, 2, min(3, N), N)[(j // 4) % 4],
+                    exact=R.random() < 0.5)
         emit(base, STEPS, 1 if quick else 2)
+    # graphs on three nodes with about one expected edge: the drawn configuration often has exactly one hyperedge
+    for j in range(2 if quick else 6):
+        emit(dict(mode="model", N=3, K=1, w="full", scale=1.6, max_hye_size=2, exact=False), [(0, 0)], 12)
     # ---- one sequence given
     for j in range(12 if quick else 60):
         N = R.randint(3, 8)
